@@ -116,20 +116,22 @@ reg('C15', ['u_ast'],
      'MultiPatternNfa::try_from_patterns / parse_regex_syntax (the path from a pattern string to try_from_ast) are not under contract'],
     technique='Verus function contract by structural recursion over the imported AST')
 
-reg('C02', ['u_nfa', 'u_sub', 'u_mp', 'u_elim', 'u_glue'],
+reg('C02', ['u_nfa', 'u_sub', 'u_mp', 'u_elim', 'u_glue', 'u_lang'],
     'the build pipeline up to the minimizer, as structural refinement of three specified constructions. (1) Thompson layer (U-nfa): every NFA combinator and Nfa::try_from_ast produce EXACTLY thompson(ast, registry) (state vector, epsilon and class edges, start/end, {m,n} expansion, leaves registered left to right). '
     '(2) Union (U-mp): MultiPatternNfa::try_from_patterns yields mp_wf: pattern i is the Thompson automaton of its parsed text renumbered to its own id range [mp_off(i), mp_off(i+1)), ranges disjoint and ascending from 1, start transitions and token types in pattern order. '
     '(3) Closure layer (U-sub): Nfa::epsilon_closure returns exactly the reflexive-transitive epsilon closure (sorted, duplicate free), find_state/contains_state/find_nfa/is_accepting_state are the first-match lookups, get_match_transitions returns exactly the (class, target) pairs leaving the given states, for one Nfa and for the union (state 0 fans out to the pattern start states); every panic! in these functions is unreachable. '
     '(4) Epsilon elimination (U-elim): impl From<Nfa> and impl From<MultiPatternNfa> for CompiledDfa hand the minimizer EXACTLY the epsilon-elimination automaton: one state per distinct closure of the start state / of a transition target (injective numbering in discovery order, state 0 = closure of the start), S --cc--> closure(t) iff some member of S has the transition (cc, t), no duplicate edges, a state is accepting iff it can be entered and its closure holds an end state (so the start state alone never accepts: the empty string is not accepted), with the token type of the owning pattern; terminal_ids in pattern order; every closure a state can move to has its own state; the worklist terminates. '
     '(5) Glue (U-glue): CompiledLookahead::try_from_lookahead returns the polarity of the lookahead and minimize(epsilon-elimination(Thompson(parse(lookahead text)))); CompiledDfa::try_from_patterns returns minimize(epsilon-elimination(union)) with, per token type, the compiled lookahead of the LAST pattern carrying one (HashMap::insert overwrites), built on the registry as left by the patterns before it; add_lookahead changes nothing but the lookahead map',
     ['PROVED at spec level (theorem_elim_language, units/u_elim/elim_lang.rs, re-checked on every run): for every abstract epsilon-NFA g, every automaton d with elim_ok(g, d, reps), every class predicate and every non-empty word, d (read as find_from reads it: d_step/d_reach/d_acc) accepts exactly the token types g accepts (g_lands/g_acc: closures folded into reach); the empty word reaches only the start state, which is never accepting on its own account',
-     'NOT proved: that the language of thompson() is the language of the pattern (textbook theorem about the specified Thompson construction, stated as assumption)',
+     'PROVED at spec level (theorem_thompson_language, unit U-lang, re-checked on every run): for every AST a (regex_syntax::ast::Ast), registry reg with th_fits, class predicate cls that agrees with the leaf meaning lf on (any extension of) the resulting registry, and lf compatible with the registry\'s ComparableAst equality: thompson(a, reg).0 accepts w (a run from start to end over epsilon and class edges, units/u_lang/lang_path.rs) iff re_lang(a, lf, w), where re_lang is the textbook meaning of the AST (Empty, leaves = one character, Concat, Alternation, ?, *, +, {c} = c copies, {c,} = c copies then any number, {l,m} = l copies then m-l optional copies, Group); every Thompson automaton is `nice` (well formed, end state without outgoing edges)',
+     'PROVED at spec level (unit U-glue, glue_lang.rs, re-checked on every run): theorem_single_pattern_language: for the Nfa returned by try_from_ast for an AST and every elim_ok automaton d0 of it (= what From<Nfa> hands the minimizer; every lookahead automaton), every non-empty word w and token type tid: d_acc(d0, cls, w, tid) <==> re_lang(ast, lf, w) and tid is the pattern\'s token type. theorem_union_language: for the union m built by try_from_patterns (mp_built) and every elim_ok automaton d0 of it (= what From<MultiPatternNfa> hands the minimizer): d_acc(d0, cls, w, tid) <==> some pattern i of the mode has token type tid and re_lang(spec_parse(pattern i), lf, w). Proved through the bridge between runs of the Thompson view and the closure-folded runs of the graph view for renumbered NFAs (shifted_view, lemma_n_accepts) and lemma_mp_lands (landing in the union = landing in one pattern NFA)',
+     'NOT proved / outside: the meaning of leaves lf (class layer, C08) and its agreement with the registry-built class predicate (CharacterClassRegistry::create_match_char_class, not under contract) are hypotheses of the theorems (cls_ok, lf_respects); what regex-syntax\'s parser returns for a pattern text (spec_parse) is uninterpreted; the minimizer (spec_minimize) stands between d0 and the automaton the scanner runs',
      'NOT under contract (bounded stand-in only, see coverage.bounded_stand_in): Minimizer (property C03: not applicable; Minimizer::minimize is the uninterpreted spec_minimize, so nothing is known about the minimized automaton beyond being a function of the verified one, not even that its lookahead map is empty), ScannerImpl::try_from / CompiledScannerMode::try_from_scanner_mode (modes -> compiled modes), CharacterClassRegistry::create_match_char_class',
      'TRUSTED std contracts given through wrappers (rule U5, the call is moved verbatim into an external_body function): BTreeSet::from_iter(Vec), btree_set::Iter::cloned, HashSet::into_iter, `map.iter().find(|(_, v)| **v == id).unwrap().0.clone()`; trusted contracts sort_unstable / sort_by_key / dedup (permutation, adjacent-duplicate removal), <[T]>::contains',
      'TRUSTED axioms: derived Ord of the id newtypes and of (CharClassID, StateID) is the integer / lexicographic order; BTreeSet<StateID> as a hash key has the equality of its element set; Clone of (bool, TerminalID) is the identity; FxBuildHasher builds valid hashers',
      'TRUSTED CUTS: the Err arm of try_from_patterns (message rebuilt with the pattern index) is replaced by returning an opaque error (U4); the debug `patterns` text of the compiled automaton is opaque (U6); regex-syntax\'s parser is external (spec_parse uninterpreted); Minimizer::minimize is an uninterpreted function of its argument',
      'TRUSTED: CharacterClassRegistry::add_character_class returns the index of the first ComparableAst-equal entry or appends (position() with a string-comparing PartialEq); derived Clone/Default of Nfa, NfaState, Literal, Span, Ast, Pattern are field-wise',
      'preconditions: automata fit the 32-bit state ids (th_fits / mp_fits); Nfa::get_match_transitions indexes the state vector by id, so it is only correct for unshifted automata (n_off == 0), which is how From<Nfa> uses it'],
-    level_text='proof that the code implements the three specified constructions exactly (Thompson, union, epsilon elimination) and chains them from the pattern text to the automaton handed to the minimizer, lookaheads included; the language theorem of the epsilon elimination is proved at spec level, that of the Thompson construction is a stated assumption; the minimizer and the mode/registry layer above are covered only by a bounded stand-in that is run on every check and labelled as such',
+    level_text='proof that the code implements the three specified constructions exactly (Thompson, union, epsilon elimination) and chains them from the pattern text to the automaton handed to the minimizer, lookaheads included; the language theorems of the Thompson construction and of the epsilon elimination are proved at spec level; the minimizer and the mode/registry layer above are covered only by a bounded stand-in that is run on every check and labelled as such',
     technique='Verus function contracts and loop invariants against spec-level constructions (structural refinement), one abstract epsilon-NFA instantiated for Nfa and MultiPatternNfa + bounded stand-in for the functions out of reach',
     standin_always=['stream', 'lookahead'])
